@@ -26,6 +26,11 @@ CLAIMED = {
         note="trusted: Lean kernel (+ propext, Quot.sound); translator gen_start.py; to_string renderings injective; RocksDB",
         technique="Lean 4 proof (case analysis over the four recorded keys) + regenerated call order + differential correspondence incl. the public start()",
         ref="DESIGN.md §6 C20"),
+    "C16": dict(
+        text="Lean theorems: allowance = min(12000*len, u64::MAX), monotone, inverse conversion for parked transactions; for an ARBITRARY success predicate the bisection terminates within 64 simulations, returns a figure in [21000, cap] at which the confirmation run succeeded, and always returns one when the cap run succeeds; for monotone predicates ceil(g/12000) bytes suffice and g is within 12000 of the least sufficient limit; constants regenerated from the source; tie: gas arithmetic compared with the real functions (suite C `gas` lines), and every eth_estimateGas of suite E is checked against its recorded EVM probes (confirmation run at the returned figure, bounds, <= 66 simulations)",
+        note="trusted: Lean kernel (+ propext); revm's gas accounting is a parameter (gasUsed <= gasLimit and monotonicity are assumptions stated in the theorems, exercised but not proved)",
+        technique="Lean 4 proof (loop invariant + halving measure for the bisection, arithmetic) + differential correspondence + recorded-probe check",
+        ref="DESIGN.md §6 C16"),
 }
 PENDING_REASON = "not claimed yet in this commit: model and theorems for this property are still being built (see DESIGN.md §10 order of work)"
 
